@@ -1,10 +1,97 @@
-import LW.Model.Sampling
+/-
+  C07 — Sampling draws from the exact detected, heralded, post-selected distribution.
+
+  Model: LW.Model.Sampling.  Randomness is a tape of uniform variates, so every statement below is
+  for EVERY tape / every seed.  "Empirical frequencies converge to …" is the law of large numbers
+  applied to `inverseCdf_interval` (the set of variates selecting outcome k is an interval of
+  length p_k / Σp) and to the exact detector kernel; the limit statement itself is not formalised.
+-/
+import LW.Proofs.C07
 
 namespace LW.C07
 
-/-- interim (replaced by the real theorems): a perfect detector returns its input and draws nothing -/
-theorem perfect_detector (s : FState) (tape : List Rat) :
-    detectorSample ⟨1, 0, true⟩ s tape = (s, tape) := by
-  simp [detectorSample]
+/-- prefix sums of the weights: `cum ps k = (ps.take k).sum` (defined in LW/Proofs/C07Cdf.lean so
+that the proof file can state the lemma) -/
+abbrev cum := Proofs.C07.cum
+
+/-- INTERVAL MEASURE: with non-negative weights of positive total, the variate `u ∈ [0,1)` selects
+index `k` exactly when `cum k / Σ ≤ u < cum (k+1) / Σ` — an interval of length `p_k / Σ` — provided
+`p_k > 0`; hence the push-forward of the uniform tape is the normalised distribution. -/
+theorem inverseCdf_interval (ps : List Rat) (hnn : ∀ p ∈ ps, 0 ≤ p) (htot : 0 < ps.sum)
+    (u : Rat) (hu0 : 0 ≤ u) (hu1 : u < 1) (k : Nat) (hk : k < ps.length) (hpk : 0 < ps.getD k 0) :
+    inverseCdf ps u = k ↔ cum ps k / ps.sum ≤ u ∧ u < cum ps (k + 1) / ps.sum :=
+  Proofs.C07.inverseCdf_interval ps hnn htot u hu0 hu1 k hk hpk
+
+/-- the selected index is always a valid index -/
+theorem inverseCdf_lt (ps : List Rat) (hne : ps ≠ []) (u : Rat) : inverseCdf ps u < ps.length :=
+  Proofs.C07.inverseCdf_lt ps hne u
+
+/-- DETECTOR KERNEL: for efficiency and dark-count probability in [0,1] the kernel is a
+probability distribution over detected states … -/
+theorem detectorKernel_nonneg (d : Det) (h0 : 0 ≤ d.eta) (h1 : d.eta ≤ 1) (h2 : 0 ≤ d.pDark) (h3 : d.pDark ≤ 1)
+    (s : FState) : ∀ x ∈ detectorKernel d s, 0 ≤ x.2 :=
+  Proofs.C07.detectorKernel_nonneg d h0 h1 h2 h3 s
+
+theorem detectorKernel_sum_one (d : Det) (s : FState) : ((detectorKernel d s).map (·.2)).sum = 1 :=
+  Proofs.C07.detectorKernel_sum_one d s
+
+/-- … each mode independently: thinning (each photon kept with the efficiency), then at most one
+dark count, then the threshold cap.  Closed form of one mode's distribution. -/
+theorem modeKernel_closed_form (d : Det) (n k : Nat) :
+    (((modeKernel d n).find? (·.1 == k)).map (·.2)).getD 0 =
+      ((((List.range (n + 1)).flatMap fun j =>
+          let p : Rat := (binom n j : Rat) * d.eta ^ j * (1 - d.eta) ^ (n - j)
+          [(j, p * (1 - d.pDark)), (j + 1, p * d.pDark)]).filter
+        (fun x => (if d.pnr then x.1 else min x.1 1) == k)).map (·.2)).sum :=
+  Proofs.C07.modeKernel_closed_form d n k
+
+/-- for every tape the detected state lies in the kernel's support (same length; per mode at most
+`n + 1` counts, at most 1 under threshold detection) -/
+theorem detectorSample_shape (d : Det) (s : FState) (tape : List Rat) :
+    (detectorSample d s tape).1.length = s.length ∧
+    (∀ m, (detectorSample d s tape).1.getD m 0 ≤ s.getD m 0 + 1) ∧
+    (d.pnr = false → ∀ c ∈ (detectorSample d s tape).1, c ≤ 1) :=
+  Proofs.C07.detectorSample_shape d s tape
+
+/-- a perfect detector returns its input and consumes nothing -/
+theorem detectorSample_perfect (s : FState) (tape : List Rat) :
+    detectorSample ⟨1, 0, true⟩ s tape = (s, tape) :=
+  Proofs.C07.detectorSample_perfect s tape
+
+/-- ACCEPTANCE: a state is returned only if it satisfied the heralds, and what is returned has the
+heralded modes removed, satisfies the post-selection and the minimum-detection setting -/
+theorem acceptState_spec (outHer : Dict) (rules : List Rule) (minDet : Nat) (s hs : FState) :
+    acceptState outHer rules minDet s = some hs ↔
+      heraldsOk outHer s = true ∧ hs = removeHeralds s outHer.keys ∧
+      psValidate rules hs = true ∧ minDet ≤ photons hs :=
+  Proofs.C07.acceptState_spec outHer rules minDet s hs
+
+/-- every state returned by `sample_N_inputs`, for every distribution, detector and tape, is the
+accepted form of some detected state; at most one state is returned per input -/
+theorem sampleNInputs_ok (dist : List (FState × Rat)) (d : Det) (outHer : Dict) (rules : List Rule)
+    (minDet : Nat) (us tape : List Rat) :
+    (sampleNInputs dist d outHer rules minDet us tape).length ≤ us.length ∧
+    ∀ hs ∈ sampleNInputs dist d outHer rules minDet us tape,
+      psValidate rules hs = true ∧ minDet ≤ photons hs ∧
+      ∃ s, heraldsOk outHer s = true ∧ hs = removeHeralds s outHer.keys :=
+  Proofs.C07.sampleNInputs_ok dist d outHer rules minDet us tape
+
+/-- the distribution `sample_N_outputs` draws from contains only accepted states, each once, and
+gives each the total weight of the (thresholded) states that map to it -/
+theorem outputsDist_spec (dist : List (FState × Rat)) (pnr : Bool) (outHer : Dict) (rules : List Rule)
+    (minDet : Nat) :
+    ((outputsDist dist pnr outHer rules minDet).map (·.1)).Nodup ∧
+    ∀ hs, (((outputsDist dist pnr outHer rules minDet).find? (·.1 == hs)).map (·.2)).getD 0 =
+      ((dist.filter fun x =>
+          acceptState outHer rules minDet (if pnr then x.1 else x.1.map fun c => min c 1) == some hs).map
+        (·.2)).sum :=
+  Proofs.C07.outputsDist_spec dist pnr outHer rules minDet
+
+/-- `sample_N_outputs` returns exactly one sample per requested output, each a state of the
+conditional distribution -/
+theorem sampleNOutputs_count (cond : List (FState × Rat)) (us : List Rat) :
+    (sampleNOutputs cond us).length = us.length ∧
+    (cond ≠ [] → ∀ s ∈ sampleNOutputs cond us, s ∈ cond.map (·.1)) :=
+  Proofs.C07.sampleNOutputs_count cond us
 
 end LW.C07
